@@ -124,14 +124,16 @@ def restore_player(ctx, league, name, path, ids_seen=None, check=False):
                     ctx.violation("C20/deepcopy:%s" % f, {"name": name, "orig": repr(a), "copy": repr(b)})
     else:
         mu, sigma = league.stored(name)
+        label = league.label(name)
         if path == "create_rating":
-            new = type(league.model).create_rating([mu, sigma], name)
+            new = type(league.factory).create_rating([mu, sigma], label)
         else:
             path = "rating"
-            new = league.model.rating(mu, sigma, name)
+            new = league.factory.rating(mu, sigma, label)
         if check:
-            check_built(ctx, new, mu, sigma, name, path, ids_seen)
+            check_built(ctx, new, mu, sigma, label, path, ids_seen)
     league.players[name] = new
+    league.forget_rosters([name])
     ctx.fault("restore:" + path)
     return new
 
@@ -177,6 +179,8 @@ def check_ids(ctx, created):
 
 def exec_new(ctx, league, op):
     kw = {}
+    if "label" in op:
+        kw["label"] = op["label"]
     if "mu" in op:
         kw.update(mu=dec(op["mu"]), has_mu=True)
     if "sigma" in op:
@@ -237,8 +241,33 @@ def exec_call(ctx, league, op, tracer=None):
 # ====================================================================== generators (shared)
 
 
-def gen_rate_op(rng, ctx, league, names, opt_rate=0.3, shape=(4, 3), maker="random", rule="uniform"):
-    teams = gen_match(rng, names, league, shape_max=shape, maker=maker)
+def pick_rosters(rng, rosters, names, k_max=4):
+    """A match between some of the fixed line-ups (whose members are all present)."""
+    ok = [r for r in rosters if all(n in names for n in r)]
+    if len(ok) < 2:
+        return None
+    k = 2 if rng.random() < 0.45 else rng.randint(2, min(k_max, len(ok)))
+    return [list(r) for r in rng.sample(ok, k)]
+
+
+def make_rosters(rng, names):
+    """Partition the players into fixed line-ups of 1-3."""
+    pool = list(names)
+    rng.shuffle(pool)
+    out = []
+    while pool:
+        sz = min(len(pool), rng.choice([1, 1, 2, 2, 3]))
+        out.append(pool[:sz])
+        pool = pool[sz:]
+    return out
+
+
+def gen_rate_op(rng, ctx, league, names, opt_rate=0.3, shape=(4, 3), maker="random", rule="uniform", rosters=None):
+    teams = None
+    if rosters and rng.random() < 0.7:
+        teams = pick_rosters(rng, rosters, set(names), k_max=shape[0])
+    if teams is None:
+        teams = gen_match(rng, names, league, shape_max=shape, maker=maker)
     if teams is None:
         return None
     strengths = None
@@ -252,8 +281,12 @@ def gen_rate_op(rng, ctx, league, names, opt_rate=0.3, shape=(4, 3), maker="rand
     return op
 
 
-def gen_predict_op(rng, names, league, shape=(4, 3)):
-    teams = gen_match(rng, names, league, shape_max=shape)
+def gen_predict_op(rng, names, league, shape=(4, 3), rosters=None):
+    teams = None
+    if rosters and rng.random() < 0.8:
+        teams = pick_rosters(rng, rosters, set(names), k_max=shape[0])
+    if teams is None:
+        teams = gen_match(rng, names, league, shape_max=shape)
     if teams is None:
         return None
     return {"op": "PREDICT", "kind": rng.choice(["win", "draw", "rank"]), "teams": teams}
@@ -282,6 +315,7 @@ def calls_params(rng, prop):
         "maker": rng.choice(["random", "closest", "farthest"]),
         "rule": rng.choice(["uniform", "skill", "upset", "tie"]),
         "pristine_refs": rng.random() < 0.25,
+        "fixed_rosters": rng.random() < 0.4,
         "p_other_model": rng.choice([0.0, 0.05, 0.15]),
     }
 
@@ -301,7 +335,7 @@ def deep_probe(model):
     for v in list(own.values()):
         if isinstance(v, type) and getattr(v, "__module__", None) == cls.__module__:
             dicts.append(vars(v))
-    md = model.__dict__
+    md = getattr(model, "__dict__", {})
     cont = (dict, list, set)
 
     def probe():
@@ -321,6 +355,7 @@ class CallsDriver:
     def __init__(self, ctx):
         self.ctx = ctx
         self.league = League(ctx.cfg)
+        self.league.factory = build_model(ctx.cfg)
         self.pristine = bool(ctx.params.get("pristine_refs"))
         self.prev = "none"  # kind of the previous call on the model
         self.n_calls = 0
@@ -374,12 +409,20 @@ class CallsDriver:
             if op:
                 return op
         if r < 0.8:
-            return gen_rate_op(rng, ctx, self.league, names, p["opt_rate"], maker=p["maker"], rule=p["rule"])
+            return gen_rate_op(rng, ctx, self.league, names, p["opt_rate"], maker=p["maker"], rule=p["rule"], rosters=self.fixed_rosters(rng, names))
         if r < 0.95:
-            return gen_predict_op(rng, names, self.league)
+            return gen_predict_op(rng, names, self.league, rosters=self.fixed_rosters(rng, names))
         return {"op": "NEW", "name": "p%d" % len(names)}
 
     n_gen = 0
+    _rosters = None
+
+    def fixed_rosters(self, rng, names):
+        if not self.ctx.params.get("fixed_rosters"):
+            return None
+        if self._rosters is None:
+            self._rosters = make_rosters(rng, names)
+        return self._rosters
 
     def gen_other_model(self, rng):
         """A SECOND model object (same or another class, other parameters) is constructed and
@@ -698,7 +741,8 @@ class CallsDriver:
             pk = srng.random()
             if pk < 0.5:
                 m = league.model
-                probe = lambda: tuple((k, v if type(v) in (int, float, bool, str, type(None)) else id(v)) for k, v in m.__dict__.items())
+                md = getattr(m, "__dict__", {})
+                probe = lambda: tuple((k, v if type(v) in (int, float, bool, str, type(None)) else id(v)) for k, v in md.items())
             elif pk < 0.75:
                 probe = deep_probe(league.model)
             chooser = S.GenChooser(srng, n, strat, sp, probe)
@@ -710,6 +754,7 @@ class CallsDriver:
         ctx.count("switches_overlapping", sc.switches_overlap)
         ctx.count("threaded_phases")
         ctx.count("writes_seen", sc.writes_seen)
+        ctx.count("lock_waits", sc.lock_waits)
         if isinstance(chooser, S.GenChooser):
             ctx.count("overlay_fired", chooser.overlay_fired)
         if sc.crash_fired:
@@ -743,6 +788,7 @@ class CallsDriver:
         if cfg2 is None:
             return base if base is not None else self.league
         lg = League(cfg2)
+        lg.factory = build_model(cfg2)
         for o in op["threads"][ti]:
             for nm in flat(o["teams"]):
                 if nm in lg.players:
@@ -752,7 +798,7 @@ class CallsDriver:
                     lg.join(nm)
                     continue
                 mu, sg = lg.dom.clamp(dec(mu), dec(sg))
-                lg.players[nm] = mk_rating(lg.model, mu, sg, nm, self.ctx.stats)
+                lg.players[nm] = mk_rating(lg.factory, mu, sg, nm, self.ctx.stats)
                 lg.save(nm)
         return lg
 
@@ -1075,6 +1121,7 @@ def c20_params(rng):
         "maker": rng.choice(["random", "closest"]),
         "rule": rng.choice(["uniform", "skill", "tie"]),
         "bench": rng.random() < 0.6,
+        "fixed_rosters": rng.random() < 0.5,
     }
 
 
@@ -1147,9 +1194,9 @@ class StoreDriver:
             return {"op": "FORK_RESTORE", "names": frng.sample(allnames, min(len(allnames), frng.randint(1, 4))), "paths": [frng.choice(["rating", "create_rating"]) for _ in range(4)], "new": frng.randint(0, 2)}
         r = rng.random()
         if r < 0.7:
-            return gen_rate_op(rng, ctx, self.A, names, p["opt_rate"], maker=p["maker"], rule=p["rule"])
+            return gen_rate_op(rng, ctx, self.A, names, p["opt_rate"], maker=p["maker"], rule=p["rule"], rosters=self.fixed_rosters(rng, names))
         if r < 0.9:
-            return gen_predict_op(rng, names, self.A)
+            return gen_predict_op(rng, names, self.A, rosters=self.fixed_rosters(rng, names))
         if r < 0.94:
             return {"op": "DEEPCOPY_TEAMS", "teams": gen_match(rng, allnames, None, shape_max=(3, 3))}
         if r < 0.97:
@@ -1168,6 +1215,15 @@ class StoreDriver:
         ctx.evaluations += 1
         check_ids(ctx, self.ids)
 
+    _rosters = None
+
+    def fixed_rosters(self, rng, names):
+        if not self.ctx.params.get("fixed_rosters"):
+            return None
+        if self._rosters is None:
+            self._rosters = make_rosters(rng, names)
+        return self._rosters
+
     def op_NEW(self, op):
         ctx = self.ctx
         for L in (self.A, self.B):
@@ -1180,7 +1236,7 @@ class StoreDriver:
                 want_mu = float(want_mu)
             if "sigma" not in op:
                 want_sg = float(want_sg)
-            check_built(ctx, r, want_mu, want_sg, op["name"], "rating" if ("mu" in op and "sigma" in op) else "rating_defaults", self.ids)
+            check_built(ctx, r, want_mu, want_sg, op.get("label", op["name"]), "rating" if ("mu" in op and "sigma" in op) else "rating_defaults", self.ids)
         if "mu" in op and dec(op["mu"]) == 0:
             ctx.probe("new_zero_mu")
         if "sigma" in op and dec(op["sigma"]) == 0:
@@ -1318,6 +1374,7 @@ class StoreDriver:
         for t, c in zip(names, cp):
             for n, q in zip(t, c):
                 self.B.players[n] = q
+                self.B.forget_rosters([n])
                 self.last_paths = dict(self.last_paths)
                 self.last_paths[n] = "deepcopy_nested"
                 self.restored.add(n)
@@ -1344,17 +1401,22 @@ def _op_ABORT(self, op):
         lc = S.LineCounter(crash_at=op["at"])
         st, val = lc.run(lambda: L.model.rate(teams, **dict(kw)))
         fired.append(st)
-    if fired[0] != fired[1]:
-        ctx.violation("C20/twin_diverged:ABORT_point", {"op": op, "kept_objects": fired[0], "restored_objects": fired[1]})
-    if fired[0] == "crash":
-        ctx.fault("abort_line_both_twins")
+    # the two calls need not die at the same place (a transparent cache warmed by the first
+    # makes the second shorter): whatever each twin's objects hold now is discarded anyway
+    if "crash" in fired:
+        ctx.fault("abort_line_both_twins" if fired[0] == fired[1] else "abort_line_one_twin")
     else:
         ctx.count("crash_missed")
     for n in flat(names):
         mu, sg = self.A.stored(n)
         p = self.A.players[n]
-        p.mu = mu
-        p.sigma = sg
+        try:
+            p.mu = mu
+            p.sigma = sg
+        except AttributeError:
+            # ratings without assignable mu / sigma cannot be repaired in place: rebuild A too
+            self.A.players[n] = self.A.model.rating(mu, sg, self.A.label(n))
+            ctx.count("abort_repair_in_place_impossible")
         restore_player(ctx, self.B, n, op.get("path", "rating"), self.ids, check=True)
         self.last_paths = dict(self.last_paths)
         self.last_paths[n] = "abort+" + op.get("path", "rating")
@@ -1388,9 +1450,9 @@ def _op_FORK_RESTORE(self, op):
             for k, n in enumerate(names):
                 mu, sg = self.B.stored(n)
                 if op["paths"][k % len(op["paths"])] == "create_rating":
-                    obj = type(self.B.model).create_rating([mu, sg], n)
+                    obj = type(self.B.model).create_rating([mu, sg], self.B.label(n))
                 else:
-                    obj = self.B.model.rating(mu, sg, n)
+                    obj = self.B.model.rating(mu, sg, self.B.label(n))
                 ids.append(obj.id)
             for k in range(op.get("new", 0)):
                 ids.append(self.B.model.rating(name="forked%d" % k).id)
